@@ -185,5 +185,6 @@ def run(ck):
             ck.ob("TAB", p, "version-agreement", v[0][1]["f"]["path"].endswith("_v1") == h[0][1]["f"]["path"].endswith("_v1"),
                   "hash version equals verifier version", f.loc())
 
-    narrowing_len_sweep(ck, crate("rs", "concordium_base"), re.compile(r"concordium_base::transactions::"), re.compile(r"(verify|check)[a-z_0-9]*(::\\{closure#\\d+\\})*$"))
-    eq_polarity_sweep(ck, crate("rs", "concordium_base"), re.compile(r"concordium_base::transactions::"), re.compile(r"(verify|check)[a-z_0-9]*(::\\{closure#\\d+\\})*$"))
+    narrowing_len_sweep(ck, crate("rs", "concordium_base"), re.compile(r"concordium_base::transactions::"), re.compile(r"(verify|check)[a-z_0-9]*(::\{closure#\d+\})*$"))
+    eq_polarity_sweep(ck, crate("rs", "concordium_base"), re.compile(r"concordium_base::transactions::"), re.compile(r"(verify|check)[a-z_0-9]*(::\{closure#\d+\})*$"))
+    rejecting_checks_floor(ck, crate("rs", "concordium_base"), re.compile(r"concordium_base::transactions::"), re.compile(r"(verify|verifier|validate|check|extract_commit_message)[a-z_0-9]*(::\{closure#\d+\})*$"), "C06")
